@@ -77,7 +77,9 @@ REG = {
     "C09": {
         "modules": ["VProofs.Props.C09"],
         "theorems": thms("C09", ["C09_total", "C09_contains_total_pandas", "C09_generic_catch_all",
-                                 "C09_detect_total_pandas", "C09_total_guards", "C09_total_xforms", "C09_witness_F29"]),
+                                 "C09_detect_total_pandas", "C09_total_guards", "C09_total_xforms", "C09_witness_F29",
+                                 "C09_infer_total_pandas", "C09_hypotheses_executable"])
+                    + ["V.Pd.infer_total", "V.Pd.guardsOk_of_outCol", "V.Pd.outputs_good", "V.traverse_total_inv"],
         "runners": ["pandas", "numpy", "list", "exotic"],
         "relevant": ["contains", "guard", "xform-outcome", "infer-outcome", "detect-outcome", "relation-missing"],
     },
